@@ -207,4 +207,24 @@ CHECKS = {
         level_note="Primaries are read at the processor/broker interface and cross-checked against the records published on the channel.",
         assumptions=["no ConfigurePulseLengths or edge-multi inside these histories (covered by C01/C08)"],
     ),
+    "C06": dict(
+        pkg=".", hdir="root", test="TestVerif_C06", wal=True,
+        quick=dict(shards=16, checks=1500, timeout=600),
+        thorough=dict(shards=16, checks=12000, timeout=3000),
+        technique="stateful property-based testing (rapid): consistency oracle between the reported writing state and decoded files/open descriptors",
+        rule="rapid-generated histories (2-16 steps) on a real 2-4 channel AnySource with auto triggers (some channels with projectors): "
+             "WriteControl START x every subset of {LJH2.2, LJH3, OFF} incl. empty, default / explicit / unusable path, any letter case; "
+             "STOP; PAUSE; UNPAUSE; 'UNPAUSE label'; malformed requests (UNPAUSEx, 'UNPAUSE ', RESUME, ''); projector load/unload while "
+             "idle; publish = one data block through ProcessSegments. non-trivial = >= 2 successful STARTs with different reported type sets, "
+             "a PAUSE before the last of them, and records published while the state said active and unpaused; distinct = FNV-64 of the case",
+        level_text="After every request the reported state (ComputeWritingState) is recorded; records of each block are expected in the "
+                   "files of exactly the types that state named, for every eligible channel (OFF: channels with projectors at START), iff "
+                   "it said active and not paused. Files are decoded with the independent decoders at every STOP and at the end and must "
+                   "hold exactly the expected records; a request that returned an error must leave the reported state unchanged; every "
+                   "successful START must report a directory that did not exist before; after STOP no descriptor points into the run "
+                   "directory; no data file may appear outside the directories of successful STARTs.",
+        level_note="The oracle is a consistency check, not a re-implementation of the acceptance rules: which requests are accepted is the "
+                   "code's decision; only 'reported = behaviour' and 'rejected = unchanged' are judged.",
+        assumptions=["projectors are only changed while writing is inactive", "unusable path = parent is a regular file (the sandbox runs as root, permission bits cannot make a path unusable)"],
+    ),
 }
